@@ -243,6 +243,7 @@ type FuncResult struct {
 	Assumed   []string
 	Notes     []string
 	Pos       string
+	PathCovers []*Obligation // informational: reachability of each return path
 }
 
 // VerifyFunc generates the obligations of one function under contract.
@@ -283,6 +284,7 @@ func (eng *Engine) VerifyFunc(key string) (res *FuncResult) {
 	res.Obls = c.obls
 	res.Assumed = sortedKeys(c.assumed)
 	res.Notes = c.notes
+	res.PathCovers = c.pathCovers
 	return
 }
 
@@ -398,6 +400,20 @@ func (eng *Engine) runTop(c *FnCtx, fn *ssa.Function, fs *FuncSpec) {
 			src += ": cycle " + cyc
 		}
 		c.oblige("no-recursion", "", tags, TTrue, goal, f.pos(fn.Pos()), src)
+	}
+	// reachability covers per return path: a return that is unreachable under the contract's assumptions
+	// signals contradictory assumptions on that path (reported as a note, and as a failure only when every
+	// return is dead, see cover#return)
+	if !c.pass1 {
+		n := 0
+		for _, r := range rets {
+			if r.panics {
+				continue
+			}
+			n++
+			o := &Obligation{Name: fmt.Sprintf("%s/cover#return%d", c.name, n), Kind: "cover-path", Func: c.name, Tags: c.tags, Goal: TFalse, Guard: r.cond, NFacts: len(c.facts), Cover: true, ctx: c, Src: fmt.Sprintf("return path %d is reachable under the contract (informational)", n)}
+			c.pathCovers = append(c.pathCovers, o)
+		}
 	}
 	if !c.pass1 {
 		o := &Obligation{Name: c.name + "/cover#return", Kind: "cover", Func: c.name, Tags: c.tags, Goal: TFalse, Guard: Or(anyRet...), NFacts: len(c.facts), Cover: true, ctx: c, Src: "some return is reachable under the contract (vacuity guard)"}
